@@ -431,6 +431,13 @@ pub fn ipv4_header(w: &mut W, n: &str, h: &Ipv4Header) {
     w.d(&format!("{n}.ihl"), h.ihl());
     w.d(&format!("{n}.header_len"), h.header_len());
     w.owned(&format!("{n}.options"), h.options.as_slice());
+    {
+        // the mutable view, Deref and the conversions are separate copies of the same (unsafe) code
+        let mut c = h.options.clone();
+        let m = c.as_mut_slice().to_vec();
+        w.owned(&format!("{n}.options.as_mut_slice"), &m);
+        w.d(&format!("{n}.options.views"), (m == h.options.as_slice(), h.options.len(), h.options.len_u8(), h.options.is_empty(), h.options[..].len()));
+    }
     w.d(&format!("{n}.payload_len"), h.payload_len().map_err(|e| format!("{:?}", e)));
     w.d(&format!("{n}.is_fragmenting_payload"), h.is_fragmenting_payload());
     w.d(&format!("{n}.calc_header_checksum"), h.calc_header_checksum());
@@ -770,6 +777,12 @@ pub fn tcp_header(w: &mut W, n: &str, h: &TcpHeader) {
     w.d(&format!("{n}.data_offset"), h.data_offset());
     w.d(&format!("{n}.header_len"), h.header_len());
     w.owned(&format!("{n}.options"), h.options.as_slice());
+    {
+        let mut c = h.options.clone();
+        let m = c.as_mut_slice().to_vec();
+        w.owned(&format!("{n}.options.as_mut_slice"), &m);
+        w.d(&format!("{n}.options.views"), (m == h.options.as_slice(), h.options[..].len(), AsRef::<[u8]>::as_ref(&h.options).len()));
+    }
     let len = h.options.len();
     w.d(&format!("{n}.options.len"), (len, h.options.len_u8(), h.options.data_offset(), h.options.is_empty()));
     let it = h.options_iterator();
